@@ -9607,6 +9607,7 @@ def _write_node(node, xml_tree=None, viewport_transform=None):
         return xml_tree
 
     if isinstance(node, SVG):
+        nested = xml_tree is not None
         if xml_tree is None:
             xml_tree = subxml(xml_tree, SVG_NAME_TAG)
             xml_tree.set(SVG_ATTR_VERSION, SVG_VALUE_VERSION)
@@ -9628,12 +9629,18 @@ def _write_node(node, xml_tree=None, viewport_transform=None):
         vt = None
         try:
             vt = node.viewbox_transform
+            if not vt and nested and (node.x or node.y):
+                # A nested svg without a viewBox still places its content at (x, y).
+                vt = "translate(%s, %s)" % (Length.str(node.x), Length.str(node.y))
             if vt:
                 m = Matrix(vt)
                 m.inverse()
                 vt = m
         except ValueError:
             pass
+        if viewport_transform:
+            # Children carry every enclosing viewport transform: undo the outer ones first, then this one.
+            vt = viewport_transform * vt if vt else viewport_transform
         for child in node:
             _write_node(child, xml_tree, vt)
     elif isinstance(node, Ellipse):
